@@ -20,11 +20,22 @@ SOLVERS = [
 
 
 def _run(cmd, timeout):
+    import signal
     t0 = time.time()
+    p = subprocess.Popen("ulimit -v %d; exec %s" % (MEM_KB, cmd), shell=True, stdout=subprocess.PIPE, stderr=subprocess.PIPE, text=True,
+                         executable="/bin/bash", start_new_session=True)
     try:
-        p = subprocess.run("ulimit -v %d; exec %s" % (MEM_KB, cmd), shell=True, capture_output=True, text=True, timeout=timeout, executable="/bin/bash")
-        return p.stdout, time.time() - t0
+        so, _ = p.communicate(timeout=timeout)
+        return so, time.time() - t0
     except subprocess.TimeoutExpired:
+        try:
+            os.killpg(p.pid, signal.SIGKILL)
+        except OSError:
+            pass
+        try:
+            p.communicate(timeout=5)
+        except Exception:
+            pass
         return "timeout", time.time() - t0
 
 
